@@ -865,3 +865,8 @@ impl LocalDestination {
         Ok(())
     }
 }
+
+// verification hook (guard: cfg(kani), set only by the Kani compiler): harnesses live in /verif/kani
+#[cfg(kani)]
+#[path = "/verif/kani/local_destination.rs"]
+mod verif_kani;
